@@ -2,7 +2,7 @@
 tie: T-gen (cxx2coq on SegmentedArraySettings<sqrt|cnst, L> with L symbolic, UIntMath<size_t|uint32_t>::Log2) +
 translator validation against the real functions; L1 model of the capacity operations corresponded with the real
 container; oracle = the property predicate evaluated on the real code (index enumeration + address stability)."""
-import os, sys, bisect
+import os, sys, bisect, re
 
 GEN = ['gen_log2_64.json', 'gen_log2_32.json', 'gen_segsqrt.json', 'gen_segcnst.json', 'gen_arr_sqrt.json', 'gen_arr_cnst.json', 'gen_arr_log.json',
        'gen_shift_sqrt.json', 'gen_shift_cnst.json']
@@ -169,6 +169,13 @@ def gen_hist_cases(ctx, scale):
                 for _ in range(6):
                     ops, _ = one_history(F, L, lim, r.range(6, 16), allow_replace=False)
                     cases.append('hist %s %d %s' % (F, L, ' '.join(ops)))
+    # aimed: an array filled exactly to its capacity (count == capacity at a segment boundary), then every kind of single / multiple Insert:
+    # the Reserve inside Insert / InsertCrt / pvInsert must add a segment
+    for F in ('sq', 'cn'):
+        for L in (0, 1, 3):
+            for b in boundaries(F, L, 700)[1:18]:
+                for tail in ('i0', 'j%d' % b, 'I0:1', 'I%d:2' % b, 'J0:3', 'U%d:2' % (b // 2), 'L0'):
+                    cases.append('hist %s %d s%d k %s %s' % (F, L, b, tail, r.choice(['k', 'b1', 'a1'])))
     # two arrays: ops on either, move / swap / copy between them
     for n in range(90 * scale):
         F = r.choice(['sq', 'cn', 'sq', 'cn', 'sqw', 'cnw']); L = r.choice([0, 1, 2, 3, 5] if len(F) == 2 else [0, 3, 5]); limit = r.choice([40, 300, 2000])
@@ -405,6 +412,151 @@ def shrink_hist(ctx, harness, case):
             n = min(len(ops), n * 2)
     return ' '.join(head + ops)
 
+# ------------------------------------------------------------------ AST facts: the glue bodies that are NOT translated function by function
+def gen_seg_facts(ctx):
+    """T-gen (AST facts, after props/C05 gen_array_facts / props/C14): the statements of the thin members of SegmentedArray that only
+    compose translated functions (Insert overloads, InsertCrt, pvInsert, Remove overloads, forwarding members) and of the untranslated
+    ArrayShifter members (single-pass Insert, range InsertNogrow, filter Remove), read off the clang AST of the CURRENT headers and written
+    to coq/Gen_SegFacts.v as lists of strings.  SegFacts_Proofs.v interprets them (act_of) and runs the generated functions in that order."""
+    import json as _json
+    import cxx2coq
+    out = os.path.join(ctx.cdir, 'Gen_SegFacts.v')
+    sw = cxx2coq.skip_wrappers
+    def strip(n):
+        n = sw(n)
+        while n.get('kind') in ('ImplicitCastExpr', 'ParenExpr', 'CXXStaticCastExpr', 'CXXFunctionalCastExpr', 'CXXBindTemporaryExpr',
+                                'MaterializeTemporaryExpr', 'ExprWithCleanups') and n.get('inner'):
+            n = sw(n['inner'][-1] if n['kind'] == 'CXXFunctionalCastExpr' else n['inner'][0])
+        return n
+    def expr(n):
+        n = strip(n); k = n.get('kind')
+        if k == 'BinaryOperator': return '(%s %s %s)' % (expr(n['inner'][0]), n['opcode'], expr(n['inner'][1]))
+        if k == 'CompoundAssignOperator': return '(%s %s %s)' % (expr(n['inner'][0]), n['opcode'], expr(n['inner'][1]))
+        if k == 'UnaryOperator': return '%s%s' % (n['opcode'], expr(n['inner'][0]))
+        if k == 'DeclRefExpr': return n['referencedDecl']['name']
+        if k == 'MemberExpr': return n['name']
+        if k == 'IntegerLiteral': return n['value']
+        if k == 'CXXThisExpr': return 'this'
+        if k == 'CStyleCastExpr': return expr(n['inner'][0])
+        if k == 'CXXOperatorCallExpr':   # class-type iterators: write *it / ++it / (a = b) as for pointers
+            c = strip(n['inner'][0]); opn = (c.get('referencedDecl') or {}).get('name') or c.get('name')
+            args = n['inner'][1:]
+            if opn == 'operator*' and len(args) == 1: return '*' + expr(args[0])
+            if opn == 'operator++' and len(args) == 1: return '++' + expr(args[0])
+            if opn == 'operator=' and len(args) == 2: return '(%s = %s)' % (expr(args[0]), expr(args[1]))
+        if k in ('CallExpr', 'CXXMemberCallExpr', 'CXXOperatorCallExpr'): return call(n)
+        if k in ('CXXConstructExpr', 'CXXTemporaryObjectExpr'):
+            if len(n.get('inner', [])) == 1: return expr(n['inner'][0])    # copy / move construction of an argument passed by value
+            return 'ctor{%s}' % ', '.join(expr(a) for a in n.get('inner', []))
+        if k == 'ConditionalOperator': return '(%s ? %s : %s)' % tuple(expr(a) for a in n['inner'])
+        if k == 'ArraySubscriptExpr': return '%s[%s]' % (expr(n['inner'][0]), expr(n['inner'][1]))
+        return k
+    def call(n):
+        c = strip(n['inner'][0])
+        nm = c.get('name') or (c.get('referencedDecl') or {}).get('name') or expr(c)
+        return '%s(%s)' % (nm, ', '.join(expr(a) for a in n['inner'][1:]))
+    def stmt(st):
+        st0 = sw(st); k = st0.get('kind')
+        if k == 'DeclStmt':
+            vs = [x for x in st0['inner'] if x.get('kind') == 'VarDecl']; outl = []
+            for v in vs:
+                init = [x for x in v.get('inner', []) if isinstance(x, dict) and ('Expr' in x.get('kind', '') or x.get('kind', '').endswith('Literal') or x.get('kind', '').endswith('Operator'))]
+                outl.append('decl %s = %s' % (v['name'], expr(init[0]) if init else '-'))
+            return ', '.join(outl)
+        if k == 'IfStmt':
+            parts = st0['inner']
+            t = 'if %s { %s }' % (expr(parts[0]), '; '.join(stmts(parts[1])))
+            if len(parts) > 2: t += ' else { %s }' % '; '.join(stmts(parts[2]))
+            return t
+        if k == 'ForStmt':
+            i_, _cv, c_, inc_, b_ = st0['inner']
+            return 'for (%s; %s; %s) { %s }' % (stmt(i_) if i_ else '', expr(c_) if c_ else '', expr(inc_) if inc_ else '', '; '.join(stmts(b_)))
+        if k == 'WhileStmt': return 'while %s { %s }' % (expr(st0['inner'][0]), '; '.join(stmts(st0['inner'][1])))
+        if k == 'DoStmt': return 'CHECK' if '__assert_fail' in _json.dumps(st0) else 'do { %s }' % '; '.join(stmts(st0['inner'][0]))
+        if k == 'CXXTryStmt': return 'try { %s }' % '; '.join(stmts(st0['inner'][0]))
+        if k == 'ReturnStmt': return ('return ' + expr(st0['inner'][0])) if st0.get('inner') else 'return'
+        if k == 'ContinueStmt': return 'continue'
+        if k == 'CXXOperatorCallExpr': return expr(st0)
+        if k in ('CallExpr', 'CXXMemberCallExpr'): return call(st0)
+        if k == 'CompoundStmt': return '{ %s }' % '; '.join(stmts(st0))
+        if k == 'NullStmt': return ';'
+        if '__assert_fail' in _json.dumps(st0): return 'ASSERT'
+        return expr(st0)
+    def stmts(n):
+        n0 = sw(n)
+        return [stmt(x) for x in n0.get('inner', [])] if n0.get('kind') == 'CompoundStmt' else [stmt(n0)]
+    try:
+        tu = os.path.join(ctx.pdir, 'inst_arr.cpp'); inc = [os.path.join(ctx.repo, 'include')]
+        facts = {}
+        for si, tag in ((0, 'sqrt'), (1, 'cnst')):
+            cfg = {'tu': tu, 'filter': 'SegmentedArray', 'class': 'SegmentedArray', 'spec_index': si, 'includes': inc}
+            spec = cxx2coq.find_spec(cxx2coq.load_objs(cxx2coq.dump_ast(cfg, ctx.repo)), cfg)
+            npar = lambda d: [p_.get('name') for p_ in d.get('inner', []) if p_.get('kind') == 'ParmVarDecl']
+            def bodies(name, pred=lambda d: True):
+                ds = [d for d in cxx2coq.method_decls(spec, name) if pred(d)]
+                if not ds: raise cxx2coq.TranslationError('SegmentedArray::%s: no body found' % name)
+                bs = [stmts([x for x in d['inner'] if x.get('kind') == 'CompoundStmt'][0]) for d in ds]
+                bs = [[re.sub(r'forward\((\w+)\)', r'\1', t_) for t_ in l_] for l_ in bs]
+                bs = [[re.sub(r'ctor\{(move\(\w+\))\}', r'\1', t_) for t_ in l_] for l_ in bs]   # by-value pass of a class-type iterator
+                if any(b != bs[0] for b in bs): raise cxx2coq.TranslationError('SegmentedArray::%s: the instantiations differ' % name)
+                return bs[0]
+            q = lambda d: d['type']['qualType']
+            f = {
+              'insert_n': bodies('Insert', lambda d: npar(d) == ['index', 'count', 'item']),
+              'insert_crt': bodies('InsertCrt'),
+              'insert_var': bodies('InsertVar'),
+              'insert_move': bodies('Insert', lambda d: npar(d) == ['index', 'item'] and '&&' in q(d)),
+              'insert_copy': bodies('Insert', lambda d: npar(d) == ['index', 'item'] and '&&' not in q(d)),
+              'insert_range': bodies('Insert', lambda d: npar(d) == ['index', 'begin', 'end']),
+              'insert_ilist': bodies('Insert', lambda d: npar(d) == ['index', 'items']),
+              'pvinsert_forward': bodies('pvInsert', lambda d: 'InsertNogrow' in _json.dumps(d)),
+              'pvinsert_singlepass': bodies('pvInsert', lambda d: 'InsertNogrow' not in _json.dumps(d)),
+              'remove_n': bodies('Remove', lambda d: npar(d) == ['index', 'count']),
+              'remove_filter': bodies('Remove', lambda d: npar(d) == ['itemFilter']),
+              'remove_back': bodies('RemoveBack'),
+              'add_back_var': bodies('AddBackVar'), 'add_back_nogrow_var': bodies('AddBackNogrowVar'),
+              'set_count': bodies('SetCount', lambda d: npar(d) == ['count']), 'set_count_item': bodies('SetCount', lambda d: npar(d) == ['count', 'item']),
+              'get_back_item': bodies('GetBackItem'), 'index_op': bodies('operator[]'),
+            }
+            facts[tag] = f
+        if facts['sqrt'] != facts['cnst']:
+            raise cxx2coq.TranslationError('the sqrt and cnst instantiations of SegmentedArray have different glue bodies')
+        # the untranslated members of ArrayShifter<SegmentedArray>
+        sh = {}
+        for si in (0, 1):
+            cfg = {'tu': tu, 'filter': 'ArrayShifter', 'class': 'ArrayShifter', 'spec_index': si, 'includes': inc}
+            sspec = cxx2coq.find_spec(cxx2coq.load_objs(cxx2coq.dump_ast(cfg, ctx.repo)), cfg)
+            if 'momo::SegmentedArray<' not in _json.dumps([x for x in sspec.get('inner', []) if x.get('kind') == 'TemplateArgument']):
+                raise cxx2coq.TranslationError('ArrayShifter specialization #%d is not a SegmentedArray instantiation' % si)
+            npar = lambda d: [p_.get('name') for p_ in d.get('inner', []) if p_.get('kind') == 'ParmVarDecl']
+            def sbody(name, pred):
+                ds = [d for d in cxx2coq.method_decls(sspec, name) if pred(d)]
+                if not ds: raise cxx2coq.TranslationError('ArrayShifter::%s: no body found' % name)
+                bs = [stmts([x for x in d['inner'] if x.get('kind') == 'CompoundStmt'][0]) for d in ds]
+                if any(b != bs[0] for b in bs): raise cxx2coq.TranslationError('ArrayShifter::%s: the instantiations differ' % name)
+                return bs[0]
+            sh[si] = {'shifter_insert_singlepass': sbody('Insert', lambda d: npar(d) == ['array', 'index', 'begin', 'end']),
+                      'shifter_insert_nogrow_range': sbody('InsertNogrow', lambda d: npar(d) == ['array', 'index', 'begin', 'count']),
+                      'shifter_insert_nogrow_move': sbody('InsertNogrow', lambda d: npar(d) == ['array', 'index', 'item'] and '&&' in d['type']['qualType']),
+                      'shifter_remove_filter': sbody('Remove', lambda d: npar(d) == ['array', 'itemFilter'])}
+        if sh[0] != sh[1]:
+            raise cxx2coq.TranslationError('the two ArrayShifter<SegmentedArray> instantiations differ')
+        def lst(name, items): return 'Definition %s : list string := [%s].\n' % (name, '; '.join('"%s"' % x.replace('"', "'") for x in items))
+        txt = ('(* GENERATED by props/C16/prop.py (gen_seg_facts) from the clang AST of inst_arr.cpp -- do not edit *)\n'
+               'From Coq Require Import List String.\nImport ListNotations.\nLocal Open Scope string_scope.\n\n'
+               '(* SegmentedArray (sqrt and cnst instantiations agree): statements of the thin members, in source order *)\n' +
+               ''.join(lst('seg_' + k_, v_) for k_, v_ in facts['sqrt'].items()) +
+               '(* ArrayShifter<SegmentedArray>: the members that are not translated function by function *)\n' +
+               ''.join(lst(k_, v_) for k_, v_ in sh[0].items()))
+        if not os.path.exists(out) or open(out).read() != txt:
+            open(out, 'w').write(txt)
+        ctx.tie_obligations.append({'name': 'translate Gen_SegFacts (statement lists of the glue members of SegmentedArray / ArrayShifter)', 'ok': True})
+        return True
+    except Exception as e:
+        if os.path.exists(out): os.remove(out)
+        ctx.tie_obligations.append({'name': 'translate Gen_SegFacts', 'ok': False, 'error': str(e)[:400]})
+        return False
+
 def replay(ctx, rp):
     harness = ctx.cxx('harness.cpp', 'harness')
     if harness is None:
@@ -433,6 +585,8 @@ def run(ctx):
                         'sqrt sizing: every size_t index except (L = 0, index = SIZE_MAX) where index1 = (index >> L) + 1 wraps (theorem C16_sqrt_top_L0_aliases states what happens there); GetItemCount additionally not (L = 63, index >= 2^63: shift by 64)',
                         'L1 capacity model: element construction/destruction and allocation failure are not modelled (no-throw histories)']
     ctx.regen(GEN)
+    if not gen_seg_facts(ctx):
+        ctx.stage('regen', False, 'SegFacts extraction failed: ' + str(ctx.tie_obligations[-1].get('error')))
     ctx.prove()
     harness = ctx.cxx('harness.cpp', 'harness')
     if harness is None:
